@@ -292,6 +292,61 @@ package server
 //@   call MarshalLeaderEpochOffsetResponse requires [last-offset-before-the-next-epoch] arg0 != nil && arg0.EndOffset == (req.LeaderEpoch < ghost.latestEpochOfLog ? ghost.epochLookup - 1 : ghost.epochLookup)
 
 // ---------------------------------------------------------------------------------------------
+// Requests forwarded to the metadata leader over NATS (property C14): a PropagatedRequest names an operation, but the
+// operation's body is a separate, optional field on the wire. The metadata API dereferences the body, so a handler
+// may hand it over only if it is there - a decodable request must not crash the metadata leader.
+//@ func (*Server).handlePropagatedRequest serves C14
+//@   assumes s != nil && m != nil
+//@ func hasOperationBody serves C14
+//@   requires req != nil
+//@   modifies nothing
+//@   ensures [true-only-if-the-named-operation's-body-is-there] result ==> (req.Op == proto.Op_CREATE_STREAM ==> req.CreateStreamOp != nil) && (req.Op == proto.Op_SHRINK_ISR ==> req.ShrinkISROp != nil) && (req.Op == proto.Op_EXPAND_ISR ==> req.ExpandISROp != nil) && (req.Op == proto.Op_REPORT_LEADER ==> req.ReportLeaderOp != nil) && (req.Op == proto.Op_DELETE_STREAM ==> req.DeleteStreamOp != nil) && (req.Op == proto.Op_PAUSE_STREAM ==> req.PauseStreamOp != nil) && (req.Op == proto.Op_RESUME_STREAM ==> req.ResumeStreamOp != nil) && (req.Op == proto.Op_SET_STREAM_READONLY ==> req.SetStreamReadonlyOp != nil) && (req.Op == proto.Op_JOIN_CONSUMER_GROUP ==> req.JoinConsumerGroupOp != nil) && (req.Op == proto.Op_LEAVE_CONSUMER_GROUP ==> req.LeaveConsumerGroupOp != nil) && (req.Op == proto.Op_REPORT_CONSUMER_GROUP_COORDINATOR ==> req.ReportConsumerGroupCoordinatorOp != nil)
+//@ func (*Server).handleCreateStream serves C14
+//@   requires [the-operation-body-is-present] req != nil && req.CreateStreamOp != nil
+//@   assumes s != nil && s.metadata != nil
+//@   call CreateStream requires [the-operation-body-is-present] arg2 != nil
+//@ func (*Server).handleShrinkISR serves C14
+//@   requires [the-operation-body-is-present] req != nil && req.ShrinkISROp != nil
+//@   assumes s != nil && s.metadata != nil
+//@   call ShrinkISR requires [the-operation-body-is-present] arg2 != nil
+//@ func (*Server).handleExpandISR serves C14
+//@   requires [the-operation-body-is-present] req != nil && req.ExpandISROp != nil
+//@   assumes s != nil && s.metadata != nil
+//@   call ExpandISR requires [the-operation-body-is-present] arg2 != nil
+//@ func (*Server).handleReportLeader serves C14
+//@   requires [the-operation-body-is-present] req != nil && req.ReportLeaderOp != nil
+//@   assumes s != nil && s.metadata != nil
+//@   call ReportLeader requires [the-operation-body-is-present] arg2 != nil
+//@ func (*Server).handleDeleteStream serves C14
+//@   requires [the-operation-body-is-present] req != nil && req.DeleteStreamOp != nil
+//@   assumes s != nil && s.metadata != nil
+//@   call DeleteStream requires [the-operation-body-is-present] arg2 != nil
+//@ func (*Server).handlePauseStream serves C14
+//@   requires [the-operation-body-is-present] req != nil && req.PauseStreamOp != nil
+//@   assumes s != nil && s.metadata != nil
+//@   call PauseStream requires [the-operation-body-is-present] arg2 != nil
+//@ func (*Server).handleResumeStream serves C14
+//@   requires [the-operation-body-is-present] req != nil && req.ResumeStreamOp != nil
+//@   assumes s != nil && s.metadata != nil
+//@   call ResumeStream requires [the-operation-body-is-present] arg2 != nil
+//@ func (*Server).handleSetStreamReadonly serves C14
+//@   requires [the-operation-body-is-present] req != nil && req.SetStreamReadonlyOp != nil
+//@   assumes s != nil && s.metadata != nil
+//@   call SetStreamReadonly requires [the-operation-body-is-present] arg2 != nil
+//@ func (*Server).handleJoinConsumerGroup serves C14
+//@   requires [the-operation-body-is-present] req != nil && req.JoinConsumerGroupOp != nil
+//@   assumes s != nil && s.metadata != nil
+//@   call JoinConsumerGroup requires [the-operation-body-is-present] arg2 != nil
+//@ func (*Server).handleLeaveConsumerGroup serves C14
+//@   requires [the-operation-body-is-present] req != nil && req.LeaveConsumerGroupOp != nil
+//@   assumes s != nil && s.metadata != nil
+//@   call LeaveConsumerGroup requires [the-operation-body-is-present] arg2 != nil
+//@ func (*Server).handleReportConsumerGroupCoordinator serves C14
+//@   requires [the-operation-body-is-present] req != nil && req.ReportConsumerGroupCoordinatorOp != nil
+//@   assumes s != nil && s.metadata != nil
+//@   call ReportGroupCoordinator requires [the-operation-body-is-present] arg2 != nil
+
+// ---------------------------------------------------------------------------------------------
 // One active group subscription per partition (property C13)
 //
 // ghost.active[p][g]: the cancel channel of the running, not yet cancelled subscription loop of group g
